@@ -49,6 +49,17 @@ def shape_type(I, st, v):
             return ListOf(o.ety)
     if isinstance(v, SOpaque):
         return Opaque(v.tname)
+    if isinstance(v, SIte):
+        ta, tb = shape_type(I, st, v.a), shape_type(I, st, v.b)
+        if ta is None or tb is None:
+            return None
+        if repr(ta) == repr(tb):
+            return ta
+        if ta is NoneT:
+            return Opt(tb)
+        if tb is NoneT:
+            return Opt(ta)
+        return None
     return None
 
 
